@@ -199,7 +199,9 @@ def judgeC17 (ops impl : List String) : Bool × String :=
       let extra := got.filter (fun g => !want.contains g)
       let legacy := ((Life.rows (Life.runLegacy cfg.ref rs)).map rowLine).mergeSort strLe
       let tag := if !Life.orphanFree cfg.ref rs && legacy == got then "[phantom-process-on-thread-exit] " else ""
-      (false, s!"{tag}thread entries differ from the record history: expected-but-absent {missing.take 2}; unexpected {extra.take 2}")
+      -- (the leading word is the reason class bin/check keeps while shrinking: a failure must not shrink into
+      -- the tagged one)
+      (false, s!"{if tag == "" then "rows: " else tag}thread entries differ from the record history: expected-but-absent {missing.take 2}; unexpected {extra.take 2}")
 
 /-! ### C02 / C14: stacks -/
 
